@@ -12,7 +12,7 @@ IMPORTS = 'From EdxmlVerif Require Import Base.Prelude Onto.Tree Onto.Kinds Onto
 
 # edits that are NOT valid upgrades even with a version bump (from the EDXML upgrade rules, independent of the model)
 INVALID = {'g.regex-hard=zx|y', 'g.regex-hard=other', 'o.regex-hard', 'o.regex-hard=empty', 'o.regex-hard=x|y', 'o.regex-hard=zx|y', 'o.regex-hard=x|y|z', 'o.data-type', 'e.enum-prefix', 'e.enum-b', 'e.enum-other',
-           'ta.+version-property', 'ta.+sequence', 'ta.+mandatory-property', 'ta.+optional+mandatory-property', 'ta.+mandatory+optional-property', 'ta.-property+optional-property', 'ta.+optional-datetime-property', 'ta.-property', 'ta.-relation',
+           'ta.+version-property', 'ta.+sequence', 'ta.+mandatory-property', 'ta.p.optional+object-type', 'ta.p.optional+merge', 'ta.q.description+single', 'ta.attachment-renamed', 'ta.+optional+mandatory-property', 'ta.+mandatory+optional-property', 'ta.-property+optional-property', 'ta.+optional-datetime-property', 'ta.-property', 'ta.-relation',
            'ta.-attachment', 'ta.-parent', 'ta.p.merge', 'ta.p.object-type', 'ta.q.single', 'ta.q.mandatory', 'ta.q.-concept',
            'ta.q.c.extension', 'ta.inter.target-concept=c.x', 'ta.doc.media-type=text/html', 'ta.doc.media-type=Text/Plain',
            'ta.doc.encoding=base64', 'ta.parent.property-map'}
@@ -101,6 +101,8 @@ def canon(o):
         out['source:' + x['uri']] = json.dumps(x, sort_keys=True)
     for x in o['event-types']:
         y = copy.deepcopy(x)
+        if y.get('parent') and isinstance(y['parent'].get('property-map'), str):
+            y['parent']['property-map'] = ','.join(sorted(y['parent']['property-map'].split(',')))       # a mapping: the order of its entries means nothing
         y['properties'] = sorted(y['properties'], key=lambda p: p['name'])
         for p in y['properties']:
             p['concepts'] = sorted(p['concepts'], key=lambda c: c['name'])
@@ -311,6 +313,13 @@ def main(argv):
             OL._et(b2)['version'] = 3
             directed.append(('chain', [OL.base_ontology(), b1, b2], False))
             directed.append(('chain', [b1, OL.base_ontology(), b2], False))
+    # the same definitions, the parent's property map written in another order: nothing to update, nothing to refuse
+    m1, m2 = OL.two_entry_parent('r:k2,p:k'), OL.two_entry_parent('p:k,r:k2')
+    directed += [('identical', [m1, m2], False), ('identical', [m2, m1], False)]
+    m3 = copy.deepcopy(m2)
+    OL._et(m3)['description'] = 'second version'
+    OL._et(m3)['version'] = 2
+    directed += [('one-sided', [m1, m3], False), ('one-sided', [m3, m1], False)]
     Eby = {e[1]: e for e in E}
     directed.append(('one-sided', [OL.base_ontology(), OL.apply_edits(OL.base_ontology(), [Eby['ta.p.description']], 2)], False))
     for it in range(n):
